@@ -82,7 +82,12 @@ func c02World(t *rapid.T) (map[string]string, map[string]string, []string) {
 	// would be shared between goroutines)
 	mem["mesc"] = "{% for i in [1,2,3] %}{{ s|e }}{{ (s ~ i)|escape }}{% endfor %}{{ s|e|e }}"
 	mem["mobj"] = "{{ o.Name }}/{{ o.N }}/{{ o.Label }}/{{ o.Double }}/{% for it in o.Items %}{{ it }}{% endfor %}/{{ o.Nope }}"
-	names = append(names, "mchild", "minc", "mmac", "mbig", "mesc", "mobj")
+	// loops over maps (untyped, typed, int-keyed, nested through a recursive include) and filters over
+	// lists that differ per call: scratch space kept on a shared node or in the extension would be
+	// shared between goroutines
+	mem["mmap"] = "{% for k, x in mp %}{{ k }}={{ x }};{% endfor %}|{% for k, x in mi %}{{ k }}:{{ x }},{% endfor %}|{{ mp|keys|join(',') }}|{{ mp|length }}|{% for x in xs|sort %}{{ x }}.{% endfor %}|{{ xs|reverse|join('-') }}|{{ xs|merge([v])|join('+') }}|{{ mi|first }}"
+	mem["mtree"] = "{% for k, x in t %}{{ k }}{% if x is iterable %}[{% include 'mtree' with {'t': x} only %}]{% else %}={{ x }}{% endif %};{% endfor %}"
+	names = append(names, "mchild", "minc", "mmac", "mbig", "mesc", "mobj", "mmap", "mtree")
 	return fs, mem, names
 }
 
@@ -139,6 +144,15 @@ func c02Do(e *twig.Engine, call C02Call, nonce string) Res {
 		o = &c02Obj{Name: fmt.Sprintf("n%d", call.V), N: call.V}
 	}
 	ctx := map[string]interface{}{"o": o, "v": call.V, "s": fmt.Sprintf("<%d&\"'>%s", call.V, strings.Repeat("<&>", call.V))}
+	// maps and lists whose size and content depend on the call
+	mp, mi, xs := map[string]interface{}{}, map[int]string{}, []interface{}{}
+	for i := 0; i <= call.V%5+1; i++ {
+		mp[fmt.Sprintf("k%d_%d", call.V, i)] = call.V*10 + i
+		mi[call.V*100+i] = fmt.Sprintf("s%d.%d", call.V, i)
+		xs = append(xs, (call.V*7+i*13)%50)
+	}
+	ctx["mp"], ctx["mi"], ctx["xs"] = mp, mi, xs
+	ctx["t"] = map[string]interface{}{fmt.Sprintf("a%d", call.V): 1, "b": map[string]interface{}{"c": call.V, fmt.Sprintf("d%d", call.V%3): map[string]interface{}{"e": 2, "f": call.V + 1}}, "g": mp}
 	switch call.Op {
 	case "renderTo":
 		switch call.W {
